@@ -274,11 +274,23 @@ class UAIReader(object):
             model.add_edges_from(self.edges)
 
             tabular_cpds = []
+            # Parent order of each table: the writer lists the parents of a CPD in
+            # reversed order in the function scope, followed by the child.
+            scope_parents = {}
+            for function in range(0, self.no_functions):
+                function_variables = self.grammar.parseString(self.network)[
+                    "fun_" + str(function)
+                ]
+                if isinstance(function_variables, int):
+                    function_variables = [function_variables]
+                scope_parents["var_" + str(function_variables[-1])] = [
+                    "var_" + str(var) for var in function_variables[:-1]
+                ][::-1]
             for child_var, values in self.tables:
                 states = int(self.domain[child_var])
                 values = np.fromiter(values, dtype=float)
                 values = values.reshape(states, values.size // states)
-                parents = list(model.predecessors(child_var))
+                parents = scope_parents[child_var]
                 if len(parents) == 0:
                     tabular_cpds.append(TabularCPD(child_var, states, values))
                 else:
